@@ -114,14 +114,19 @@ AliasChoices(k) == IF Layout = "five-marked" THEN 1..1 ELSE IF Layout = "five" \
 
 Cell(c) == c.marker \o Aliases(c.role)[c.alias] \o c.suffix
 
-BaseOpts == [sep |-> ",", dec |-> ".", order |-> "desc", sweeps |-> 1, case |-> "lower", points |-> 4]
+\* num: "full" = every number carries a decimal mark; "short" = whole numbers are written without one (10000, not 10000.0),
+\* as spreadsheet exports do - with a decimal comma the rows then hold different numbers of commas
+BaseOpts == [sep |-> ",", dec |-> ".", order |-> "desc", sweeps |-> 1, case |-> "lower", points |-> 4, num |-> "full"]
 FileOpts ==
     IF OptMode = "single"
     THEN {BaseOpts, [BaseOpts EXCEPT !.sep = "tab"], [BaseOpts EXCEPT !.sep = ";", !.dec = ","], [BaseOpts EXCEPT !.sep = "space"],
           [BaseOpts EXCEPT !.order = "asc"], [BaseOpts EXCEPT !.sweeps = 2], [BaseOpts EXCEPT !.sweeps = 3, !.order = "asc"],
-          [BaseOpts EXCEPT !.case = "upper"], [BaseOpts EXCEPT !.case = "title"], [BaseOpts EXCEPT !.points = 1]}
+          [BaseOpts EXCEPT !.case = "upper"], [BaseOpts EXCEPT !.case = "title"], [BaseOpts EXCEPT !.points = 1],
+          [BaseOpts EXCEPT !.num = "short"], [BaseOpts EXCEPT !.sep = ";", !.dec = ",", !.num = "short"],
+          [BaseOpts EXCEPT !.sep = "tab", !.dec = ",", !.num = "short", !.order = "asc"],
+          [BaseOpts EXCEPT !.sep = "space", !.dec = ",", !.num = "short", !.sweeps = 2]}
     ELSE {o \in [sep : {",", "tab", ";", "space"}, dec : {".", ","}, order : {"desc", "asc"}, sweeps : 1..3,
-                 case : {"lower", "upper", "title"}, points : {1, 2, 4}] :
+                 case : {"lower", "upper", "title"}, points : {1, 2, 4}, num : {"full", "short"}] :
             /\ (o.dec = "," => o.sep # ",")
             /\ (o.points = 1 => o.sweeps = 1)}
 
